@@ -176,6 +176,13 @@ def real_tokens(src):
             pass
         else:
             cmdpos = False
+    # the literal parts of an f-string touch their neighbours; xonsh's tokenizer reports unreliable
+    # positions for them when the literal spans lines, so take the neighbours' word for it
+    for i, k in enumerate(out):
+        if k.type == xtok.FSTRING_MIDDLE and 0 < i < len(out) - 1:
+            a0, b0 = out[i - 1].b, out[i + 1].a
+            if a0 <= b0:
+                k.a, k.b = a0, b0
     return out
 
 
@@ -253,50 +260,129 @@ def _key(t):
 
 
 def _snapped_script(src, out, ts):
-    """Edit script when `out` cannot be tokenised: a character alignment (difflib) snapped to the
-    token / gap segments of `src`, so that every edit is again a whole gap or lies inside one token."""
-    bounds = [0]
-    for t in ts:
-        if t.a > bounds[-1]:
-            bounds.append(t.a)
-        if t.b > bounds[-1]:
-            bounds.append(t.b)
-    if bounds[-1] < len(src):
-        bounds.append(len(src))
-    starts = {t.a for t in ts}
-    blocks = difflib.SequenceMatcher(None, src, out, autojunk=False).get_matching_blocks()
+    """Edit script when `out` cannot be tokenised (or its token positions cannot be trusted): a
+    character alignment (difflib) snapped to the tokens and gaps of `src`, so that every edit is again
+    a whole gap or lies inside one token.  Tokens whose boundaries cannot be located are merged with
+    their neighbourhood into one region."""
+    blocks = [(i, j, n) for i, j, n in difflib.SequenceMatcher(None, src, out, autojunk=False).get_matching_blocks() if n]
 
-    def f(x):
-        if x == 0:
-            return 0
-        if x == len(src):
-            return len(out)
-        cands = [(i, j, n) for i, j, n in blocks if n and i <= x <= i + n]
-        if not cands:
-            return None
-        if x in starts:          # blanks inserted before a token belong to the gap
+    def f(x, start):
+        """out offset of src offset x; start=True: x is where a token starts (blanks inserted before it
+        belong to the gap), start=False: x is where a token ends"""
+        cands = [(i, j, n) for i, j, n in blocks if i <= x <= i + n]
+        if start:
+            cands = [c for c in cands if x < c[0] + c[2]] or cands     # prefer the block the token's first char is in
+            if not cands:
+                return None
             i, j, n = max(cands, key=lambda c: c[0])
         else:
+            cands = [c for c in cands if x > c[0]] or cands            # prefer the block the token's last char is in
+            if not cands:
+                return None
             i, j, n = min(cands, key=lambda c: c[0])
         return j + (x - i)
 
     edits = []
-    a, fa = 0, 0
-    for x in bounds[1:]:
-        fx = f(x)
-        if fx is None or fx < fa:
-            continue             # unresolved boundary: merge with the next segment
-        seg_s, seg_o = src[a:x], out[fa:fx]
-        if seg_s != seg_o:
-            if seg_s.strip(" \t\n\x0c") == "" and seg_o.strip(" \t\n\x0c") == "":
-                edits.extend(_split_gap(a, seg_s, seg_o))
-            else:
-                edits.append((a, x, seg_o))
-        a, fa = x, fx
-    if a < len(src) or fa < len(out):
-        edits.append((a, len(src), out[fa:]))
+    ps = po = 0                 # end of the last placed token in src / out
+    pending = None              # start (in src) of a region whose tokens could not be located
+    for t in ts:
+        if t.b <= t.a:
+            continue
+        oa, ob = f(t.a, True), f(t.b, False)
+        if oa is None or ob is None or oa < po or ob < oa:
+            if pending is None:
+                pending = ps
+            continue
+        if pending is not None:
+            # region: from the end of the last located token to the start of this one
+            if src[pending:t.a] != out[po:oa]:
+                edits.append((pending, t.a, out[po:oa]))
+            pending = None
+        else:
+            sg, og = src[ps:t.a], out[po:oa]
+            if sg != og:
+                if sg.strip(" \t\n\x0c") == "" and og.strip(" \t\n\x0c") == "":
+                    edits.extend(_split_gap(ps, sg, og))
+                else:
+                    edits.append((ps, t.a, og))
+        sx, sy = src[t.a:t.b], out[oa:ob]
+        if sx != sy:
+            edits.extend(_char_script(sx, sy, t.a))
+        ps, po = t.b, ob
+    start = pending if pending is not None else ps
+    if src[start:] != out[po:]:
+        sg, og = src[start:], out[po:]
+        if sg.strip(" \t\n\x0c") == "" and og.strip(" \t\n\x0c") == "":
+            edits.extend(_split_gap(start, sg, og))
+        else:
+            edits.append((start, len(src), og))
     if apply_edits(src, edits) != out:
         return _char_script(src, out)
+    return edits
+
+
+def _strip_blanks(x):
+    return x.replace(" ", "").replace("\t", "").replace("\x0c", "")
+
+
+def _sequential_script(src, out, ts):
+    """The formatter re-emits every token's text verbatim (its contract), so the tokens of `src` can be
+    located in `out` one after the other with nothing but blanks and line breaks between them; no
+    tokenisation of `out` is needed (it may not even tokenise).  Strings, comments and f-string literal
+    parts may differ inside by blanks.  Returns None when a token cannot be located that way."""
+    xtok = _mods()
+    soft = (xtok.STRING, xtok.COMMENT, xtok.FSTRING_MIDDLE)
+    edits = []
+    ps = po = 0
+    n = len(out)
+    for t in ts:
+        text = src[t.a:t.b]
+        if t.b <= t.a or not text.strip(" \t\n\x0c"):
+            continue
+        if src[ps:t.a].strip(" \t\n\x0c"):
+            return None
+        q = po
+        if t.type != xtok.FSTRING_MIDDLE and not (t.type == xtok.FSTRING_END):
+            while q < n and out[q] in " \t\n\x0c":
+                q += 1
+        if out.startswith(text, q):
+            oa, ob = q, q + len(text)
+        elif t.type in soft:
+            want = _strip_blanks(text)
+            if t.type != xtok.FSTRING_MIDDLE:
+                while q < n and out[q] in " \t\n\x0c":
+                    q += 1
+            j, k = q, 0
+            while j < n and k < len(want):
+                if out[j] in " \t\x0c":
+                    j += 1
+                    continue
+                if out[j] != want[k]:
+                    return None
+                j += 1
+                k += 1
+            if k < len(want):
+                return None
+            # trailing blanks inside the token's last line stay with the token only when the source token ends with blanks
+            oa, ob = q, j
+            if t.type == xtok.FSTRING_MIDDLE:
+                while ob < n and out[ob] in " \t\x0c" and text[-1:] in " \t\x0c":
+                    ob += 1
+        else:
+            return None
+        sg, og = src[ps:t.a], out[po:oa]
+        if sg != og:
+            edits.extend(_split_gap(ps, sg, og))
+        if text != out[oa:ob]:
+            edits.extend(_char_script(text, out[oa:ob], t.a))
+        ps, po = t.b, ob
+    sg, og = src[ps:], out[po:]
+    if sg.strip(" \t\n\x0c") or og.strip(" \t\n\x0c"):
+        return None
+    if sg != og:
+        edits.extend(_split_gap(ps, sg, og))
+    if apply_edits(src, edits) != out:
+        return None
     return edits
 
 
@@ -309,6 +395,9 @@ def edit_script(src, out):
         ts = real_tokens(src)
     except Exception:  # noqa: BLE001
         return _char_script(src, out)
+    seq = _sequential_script(src, out, ts)
+    if seq is not None:
+        return seq
     try:
         to = real_tokens(out)
     except Exception:  # noqa: BLE001
@@ -559,34 +648,50 @@ def _helper_name(c):
 
 
 def diff_flags(a, b, flags=None):
-    """Walk two canonical trees (vlib.astcanon) to their first difference; collect which xonsh helper
-    calls / node classes enclose it (or are it): 'subproc', 'macro', 'fstring'."""
+    """Walk two canonical trees (vlib.astcanon) to their first difference.  Returns a set of flags:
+    'subproc' / 'macro' / 'fstring' when a xonsh subprocess helper call / macro call / JoinedStr encloses
+    the difference or is the *first* tree's node at the difference; 'b-subproc' when only the second
+    tree has a subprocess call there (the statement turned from Python into a command)."""
     if flags is None:
         flags = set()
     if a == b:
         return flags
 
-    def note(c):
+    def kind(c):
+        if isinstance(c, tuple) and len(c) == 2 and c[0] == "Expr" and isinstance(c[1], tuple):
+            c = dict(c[1]).get("value")          # an expression statement is what its value is
         h = _helper_name(c) if isinstance(c, tuple) and c else None
         if h:
-            if h.startswith("subproc_"):
-                flags.add("subproc")
-            elif h in ("call_macro", "enter_macro"):
-                flags.add("macro")
+            if h.startswith(("subproc_captured", "subproc_uncaptured")):
+                return "subproc"
+            if h in ("call_macro", "enter_macro"):
+                return "macro"
         if isinstance(c, tuple) and c and c[0] == "JoinedStr":
-            flags.add("fstring")
+            return "fstring"
+        return None
 
-    note(a)
-    note(b)
+    ka, kb = kind(a), kind(b)
     if isinstance(a, tuple) and isinstance(b, tuple) and len(a) == 2 and len(b) == 2 and isinstance(a[0], str) and a[0] == b[0] \
             and isinstance(a[1], tuple) and isinstance(b[1], tuple) and a[1] and b[1] and isinstance(a[1][0], tuple) \
             and len(a[1][0]) == 2 and isinstance(a[1][0][0], str):
         fa, fb = dict(a[1]), dict(b[1])
+        if ka and ka == kb and fa.get("func") == fb.get("func"):
+            flags.add(ka)                       # same helper on both sides encloses the difference
+        elif ka or kb:
+            if ka:
+                flags.add(ka)
+            elif kb == "subproc":
+                flags.add("b-subproc")
+            return flags
         for k in fa:
             if fa.get(k) != fb.get(k):
                 return diff_flags(fa.get(k), fb.get(k), flags)
         return flags
-    if isinstance(a, tuple) and isinstance(b, tuple) and a and b and isinstance(a[0], tuple) and isinstance(b[0], tuple):
+    if ka:
+        flags.add(ka)
+    elif kb == "subproc":
+        flags.add("b-subproc")
+    if isinstance(a, tuple) and isinstance(b, tuple) and a and b and isinstance(a[0], tuple) and isinstance(b[0], tuple) and not ka and not kb:
         for x, y in zip(a, b):
             if x != y:
                 return diff_flags(x, y, flags)
